@@ -151,6 +151,27 @@ theorem mean1D_obeys_0D (Nz : Nat) (hNz : 2 ≤ Nz) (col : Nat → ℝ)
   field_simp
   ring
 
+/-- **`mean1D_obeys_0D` for the model's step** (`Snow.coolField1D`): the mean of the column after
+one cooling step of `_run_1D` is the old mean plus `dt·(A·K_shelf·(T_sh − T[0]) + A·q_e)/(c_p·m)`
+with `m = ρ·A·H`, `q_e = qEvap` (zero outside VISF / the vacuum window). -/
+theorem mean1D_obeys_0D_field (p : SnowIn ℝ) (g : Grid1D ℝ) (i : Nat) (T : Array ℝ) (Tsh H A : ℝ)
+    (hsz : T.size = g.Nz) (hNz : 2 ≤ g.Nz) (hdz : g.dz = H / g.Nz)
+    (hfo : g.fo = (g.lam0 / (p.const.cp_solution * p.const.rho_l)) * g.dt / (g.dz * g.dz))
+    (hrho : p.const.rho_l ≠ 0) (hcp : p.const.cp_solution ≠ 0) (hlam : g.lam0 ≠ 0) (hH : H ≠ 0) (hA : A ≠ 0) :
+    (∑ j ∈ Finset.range g.Nz, aget (coolField1D p g i T Tsh) j) / g.Nz
+      = (∑ j ∈ Finset.range g.Nz, aget T j) / g.Nz
+        + g.dt * (A * p.Kshelf * (Tsh - aget T 0)
+            + A * Snow.qEvap p Evap.vapourPressureLiquid (g.dt * (i : ℝ)) (aget T (g.Nz - 1)))
+          / (p.const.cp_solution * (p.const.rho_l * A * H)) := by
+  have h := mean1D_obeys_0D g.Nz hNz (aget T) p.const.rho_l p.const.cp_solution g.lam0 H A g.dt p.Kshelf Tsh
+    (Snow.qEvap p Evap.vapourPressureLiquid (g.dt * (i : ℝ)) (aget T (g.Nz - 1))) hrho hcp hlam hH hA
+  rw [← h]
+  congr 1
+  apply Finset.sum_congr rfl
+  intro j hj
+  have hj' : j < T.size := by rw [hsz]; exact Finset.mem_range.mp hj
+  rw [coolField1D_get p g i T Tsh (by omega) j hj', hsz, hfo, hdz]
+
 /-! ### Snowflake (1 × 1 × 1) and the homogeneous Snowing model -/
 
 /-- **`flake1_eq_0D_cooling`**: for a single isolated vial (`nbrs = [[]]`, `k_ext = 0`) with the
